@@ -294,59 +294,61 @@ fn map_ops(values: &[MV], with_get_or_insert: bool) -> Vec<MapOp> {
     v
 }
 
-/// the model side of every MapOp; returns the call's return value as text
-/// `entry_drops_hole` = the InlineTable mechanics for reserved slots (which are invisible, so only the position
-/// of a later insert can show them): its own `entry()` releases a reserved slot before answering instead of
-/// filling it in place, `retain` releases them, `sort_values_by` moves them to the front.  Table (and every
-/// container through `dyn TableLike::entry`) treats a reserved slot like an entry with that key.
-fn model_step(m: &mut MapModel, op: &MapOp, entry_drops_hole: bool) -> String {
+/// the model side of every MapOp; returns the call's return value as text.
+///
+/// Placeholders (reserved slots made by mutable indexing) are invisible: the property says they do not count towards
+/// length, emptiness, iteration, lookups or printing, and says nothing about WHERE a key lands that is inserted after
+/// having been a placeholder (today a Table fills the slot in place, an InlineTable's own entry API releases it
+/// first, `retain` / `sort_values_by` treat slots differently per container).  The reference model therefore keeps
+/// a placeholder only as a flag on the key; when such a key becomes visible it is reported in `flex`, and
+/// `reconcile` accepts whatever position the real container gave it - provided every other visible entry kept its
+/// relative order.  A key that never was a placeholder must land where a plain ordered map puts it.
+fn model_step(m: &mut MapModel, op: &MapOp, flex: &mut Vec<String>) -> String {
     let vis_show = |o: Option<MV>| opt(o.map(|v| v.show()));
-    if entry_drops_hole {
-        if let MapOp::EntryOrInsert(k, _) | MapOp::EntryOccupiedInsert(k, _) | MapOp::EntryOccupiedRemove(k) = op {
-            if let Some(i) = m_pos(m, k) {
-                if !m[i].1.vis() {
-                    m.remove(i);
-                }
+    // a flagged key that becomes visible: drop the flag, append (tentatively), remember it as position-flexible
+    fn put(m: &mut MapModel, k: &str, v: MV, flex: &mut Vec<String>) -> Option<MV> {
+        match m_pos(m, k) {
+            Some(i) if m[i].1.vis() => Some(std::mem::replace(&mut m[i].1, v)),
+            Some(i) => {
+                m.remove(i);
+                m.push((k.to_string(), v));
+                flex.push(k.to_string());
+                None
+            }
+            None => {
+                m.push((k.to_string(), v));
+                None
             }
         }
     }
-    match op {
-        MapOp::Insert(k, v) | MapOp::InsertFormatted(k, v) | MapOp::TlInsert(k, v) => vis_show(m_put(m, k, v.clone())),
+    let out = match op {
+        MapOp::Insert(k, v) | MapOp::InsertFormatted(k, v) | MapOp::TlInsert(k, v) => vis_show(put(m, k, v.clone(), flex)),
         MapOp::IndexAssign(k, v) => {
-            m_put(m, k, v.clone());
+            put(m, k, v.clone(), flex);
             String::new()
         }
-        MapOp::Remove(k) | MapOp::TlRemove(k) => vis_show(m_pos(m, k).map(|i| m.remove(i).1)),
+        MapOp::Remove(k) | MapOp::TlRemove(k) => match m_pos(m, k) {
+            Some(i) if m[i].1.vis() => m.remove(i).1.show(),
+            _ => "none".into(),
+        },
         MapOp::RemoveEntry(k) => match m_pos(m, k) {
-            Some(i) => {
+            Some(i) if m[i].1.vis() => {
                 let (kk, v) = m.remove(i);
-                if v.vis() {
-                    format!("{}={}", kk, v.show())
-                } else {
-                    "none".into()
-                }
+                format!("{}={}", kk, v.show())
             }
-            None => "none".into(),
+            _ => "none".into(),
         },
         MapOp::EntryOrInsert(k, v) | MapOp::TlEntryOrInsert(k, v) => match m_pos(m, k) {
             Some(i) if m[i].1.vis() => m[i].1.show(),
-            Some(i) => {
-                m[i].1 = v.clone();
-                v.show()
-            }
-            None => {
-                m.push((k.to_string(), v.clone()));
+            _ => {
+                put(m, k, v.clone(), flex);
                 v.show()
             }
         },
         MapOp::GetOrInsert(k, x) => match m_pos(m, k) {
             Some(i) if m[i].1.vis() => m[i].1.show(),
-            Some(i) => {
-                m[i].1 = MV::Int(*x);
-                x.to_string()
-            }
-            None => {
-                m.push((k.to_string(), MV::Int(*x)));
+            _ => {
+                put(m, k, MV::Int(*x), flex);
                 x.to_string()
             }
         },
@@ -373,12 +375,11 @@ fn model_step(m: &mut MapModel, op: &MapOp, entry_drops_hole: bool) -> String {
             _ => "none".into(),
         },
         MapOp::RetainKeyNot(k) => {
-            // (InlineTable::retain only offers values to the predicate: reserved slots are released)
-            m.retain(|(kk, v)| kk != k && (v.vis() || !entry_drops_hole));
+            m.retain(|(kk, v)| kk != k || !v.vis());
             String::new()
         }
         MapOp::RetainInts => {
-            m.retain(|(_, v)| matches!(v, MV::Int(_)));
+            m.retain(|(_, v)| matches!(v, MV::Int(_)) || !v.vis());
             String::new()
         }
         MapOp::SortValues | MapOp::TlSortValues => {
@@ -386,26 +387,16 @@ fn model_step(m: &mut MapModel, op: &MapOp, entry_drops_hole: bool) -> String {
             String::new()
         }
         MapOp::SortValuesByRev => {
-            if entry_drops_hole {
-                // InlineTable::sort_values_by cannot hand a reserved slot to the comparator: they sort first
-                m.sort_by(|a, b| match (a.1.vis(), b.1.vis()) {
-                    (true, true) => b.0.cmp(&a.0),
-                    (true, false) => std::cmp::Ordering::Greater,
-                    (false, true) => std::cmp::Ordering::Less,
-                    (false, false) => std::cmp::Ordering::Equal,
-                });
-            } else {
-                m.sort_by(|a, b| b.0.cmp(&a.0));
-            }
+            m.sort_by(|a, b| b.0.cmp(&a.0));
             String::new()
         }
         MapOp::Clear | MapOp::TlClear => {
-            m.clear();
+            m.retain(|(_, v)| !v.vis());
             String::new()
         }
         MapOp::Extend(kvs) => {
             for (k, v) in kvs {
-                m_put(m, k, v.clone());
+                put(m, k, v.clone(), flex);
             }
             String::new()
         }
@@ -417,7 +408,36 @@ fn model_step(m: &mut MapModel, op: &MapOp, entry_drops_hole: bool) -> String {
             }
             String::new()
         }
+    };
+    // canonical form: visible entries in order, then the flags sorted by key
+    let mut flags: Vec<(String, MV)> = m.iter().filter(|(_, v)| !v.vis()).cloned().collect();
+    flags.sort_by(|a, b| a.0.cmp(&b.0));
+    m.retain(|(_, v)| v.vis());
+    m.extend(flags);
+    out
+}
+
+/// see `model_step`: adopt the real position of keys that were placeholders, if nothing else moved
+fn reconcile(m: &mut MapModel, real_keys: &[String], flex: &[String]) {
+    if flex.is_empty() {
+        return;
     }
+    let vis: Vec<String> = m.iter().filter(|(_, v)| v.vis()).map(|(k, _)| k.clone()).collect();
+    if vis == real_keys {
+        return;
+    }
+    let strip = |v: &[String]| v.iter().filter(|k| !flex.contains(k)).cloned().collect::<Vec<_>>();
+    if vis.len() != real_keys.len() || strip(&vis) != strip(real_keys) {
+        return; // a genuine disagreement: the observation reports it
+    }
+    let mut new: MapModel = Vec::new();
+    for k in real_keys {
+        if let Some(i) = m_pos(m, k) {
+            new.push(m[i].clone());
+        }
+    }
+    new.extend(m.iter().filter(|(_, v)| !v.vis()).cloned());
+    *m = new;
 }
 
 // ---- Table
@@ -471,7 +491,8 @@ impl Sys for TableSys {
         map_ops(&self.values, false)
     }
     fn step(&self, t: &mut Table, m: &mut MapModel, op: &MapOp) -> (String, String) {
-        let mr = model_step(m, op, false);
+        let mut flex = Vec::new();
+        let mr = model_step(m, op, &mut flex);
         let rr = match op {
             MapOp::Insert(k, v) => opt(t.insert(k, item_of(v)).as_ref().map(show_item)),
             MapOp::InsertFormatted(k, v) => opt(t.insert_formatted(&Key::new(*k), item_of(v)).as_ref().map(show_item)),
@@ -581,6 +602,7 @@ impl Sys for TableSys {
                 String::new()
             }
         };
+        reconcile(m, &t.iter().map(|(k, _)| k.to_string()).collect::<Vec<_>>(), &flex);
         (rr, mr)
     }
     fn observe(&self, t: &Table, m: &MapModel) -> Vec<(String, String, String)> {
@@ -653,7 +675,8 @@ impl Sys for InlineSys {
         map_ops(&self.values, true)
     }
     fn step(&self, item: &mut Item, m: &mut MapModel, op: &MapOp) -> (String, String) {
-        let mr = model_step(m, op, true);
+        let mut flex = Vec::new();
+        let mr = model_step(m, op, &mut flex);
         fn it(i: &mut Item) -> &mut InlineTable {
             i.as_inline_table_mut().unwrap()
         }
@@ -766,6 +789,7 @@ impl Sys for InlineSys {
                 String::new()
             }
         };
+        reconcile(m, &it(item).iter().map(|(k, _)| k.to_string()).collect::<Vec<_>>(), &flex);
         (rr, mr)
     }
     fn observe(&self, item: &Item, m: &MapModel) -> Vec<(String, String, String)> {
@@ -1339,6 +1363,286 @@ impl Sys for TomlMapSys {
     }
 }
 
+
+// ================================================================================================
+// sort family: wide containers (stability needs > 20 elements and tied keys) and dotted children (recursion)
+
+#[derive(Clone, Debug)]
+enum SN {
+    Leaf(i64),
+    Dot(Vec<(String, SN)>),
+}
+
+fn sn_insert(t: &mut Vec<(String, SN)>, path: &[&str], v: i64) {
+    if path.len() == 1 {
+        t.push((path[0].to_string(), SN::Leaf(v)));
+        return;
+    }
+    if let Some((_, SN::Dot(c))) = t.iter_mut().find(|(k, _)| k == path[0]) {
+        sn_insert(c, &path[1..], v);
+        return;
+    }
+    let mut c = Vec::new();
+    sn_insert(&mut c, &path[1..], v);
+    t.push((path[0].to_string(), SN::Dot(c)));
+}
+
+fn sn_val(n: &SN) -> Option<i64> {
+    match n {
+        SN::Leaf(v) => Some(*v),
+        SN::Dot(_) => None,
+    }
+}
+
+/// the comparators of the family, over (key, integer value if the entry is a scalar)
+fn sort_cmp(which: usize, k1: &str, v1: Option<i64>, k2: &str, v2: Option<i64>) -> std::cmp::Ordering {
+    match which {
+        0 => k1.cmp(k2),
+        1 => k2.cmp(k1),
+        2 => k1.len().cmp(&k2.len()),
+        _ => v1.map(|v| v % 2).cmp(&v2.map(|v| v % 2)),
+    }
+}
+const SORT_CMP_NAMES: [&str; 4] = ["sort_values()", "sort_values_by(reverse key order)", "sort_values_by(key length: all tie)", "sort_values_by(value mod 2, tables first)"];
+
+fn sn_sort(t: &mut Vec<(String, SN)>, which: usize) {
+    t.sort_by(|a, b| sort_cmp(which, &a.0, sn_val(&a.1), &b.0, sn_val(&b.1)));
+    for (_, c) in t.iter_mut() {
+        if let SN::Dot(c) = c {
+            sn_sort(c, which);
+        }
+    }
+}
+
+fn sn_flat(t: &[(String, SN)], prefix: &str, out: &mut Vec<String>) {
+    for (k, n) in t {
+        let p = if prefix.is_empty() { k.clone() } else { format!("{}.{}", prefix, k) };
+        match n {
+            SN::Leaf(v) => out.push(format!("{}={}", p, v)),
+            SN::Dot(c) => sn_flat(c, &p, out),
+        }
+    }
+}
+
+fn flat_real(vals: Vec<(Vec<&Key>, &Value)>) -> Vec<String> {
+    vals.into_iter().map(|(ks, v)| format!("{}={}", ks.iter().map(|k| k.get()).collect::<Vec<_>>().join("."), v.as_integer().map(|x| x.to_string()).unwrap_or_else(|| "?".into()))).collect()
+}
+
+const SORT_PATHS: [&[&str]; 7] = [&["a"], &["c"], &["b", "x"], &["b", "y"], &["b", "z"], &["b", "m", "p"], &["b", "m", "q"]];
+
+fn permutations(n: usize) -> Vec<Vec<usize>> {
+    fn rec(cur: &mut Vec<usize>, used: &mut Vec<bool>, n: usize, out: &mut Vec<Vec<usize>>) {
+        if cur.len() == n {
+            out.push(cur.clone());
+            return;
+        }
+        for i in 0..n {
+            if !used[i] {
+                used[i] = true;
+                cur.push(i);
+                rec(cur, used, n, out);
+                cur.pop();
+                used[i] = false;
+            }
+        }
+    }
+    let mut out = Vec::new();
+    rec(&mut Vec::new(), &mut vec![false; n], n, &mut out);
+    out
+}
+
+/// one dotted-children case: the paths in the given order as a document (standard root table) or as one inline table
+fn sort_dotted_case(perm: &[usize], inline: bool, which: usize) -> Result<(), String> {
+    let mut model: Vec<(String, SN)> = Vec::new();
+    let mut parts: Vec<String> = Vec::new();
+    for &i in perm {
+        sn_insert(&mut model, SORT_PATHS[i], i as i64);
+        parts.push(format!("{} = {}", SORT_PATHS[i].join("."), i));
+    }
+    sn_sort(&mut model, which);
+    let mut want = Vec::new();
+    sn_flat(&model, "", &mut want);
+    let (got, printed) = if inline {
+        let mut v: Value = format!("{{ {} }}", parts.join(", ")).parse().map_err(|e: toml_edit::TomlError| format!("start value rejected: {}", e.message()))?;
+        let t = v.as_inline_table_mut().ok_or("not an inline table")?;
+        match which {
+            0 => t.sort_values(),
+            w => t.sort_values_by(|k1, v1, k2, v2| sort_cmp(w, k1.get(), v1.as_integer(), k2.get(), v2.as_integer())),
+        }
+        let got = flat_real(t.get_values());
+        let text = v.to_string();
+        let back: Value = text.parse().map_err(|e: toml_edit::TomlError| format!("printed {:?} does not re-parse: {}", text, e.message()))?;
+        (got, flat_real(back.as_inline_table().ok_or("not an inline table")?.get_values()))
+    } else {
+        let mut d: toml_edit::DocumentMut = (parts.join("\n") + "\n").parse().map_err(|e: toml_edit::TomlError| format!("start document rejected: {}", e.message()))?;
+        let t = d.as_table_mut();
+        match which {
+            0 => t.sort_values(),
+            w => t.sort_values_by(|k1, v1, k2, v2| sort_cmp(w, k1.get(), v1.as_integer(), k2.get(), v2.as_integer())),
+        }
+        let got = flat_real(t.get_values());
+        let text = d.to_string();
+        let back: toml_edit::DocumentMut = text.parse().map_err(|e: toml_edit::TomlError| format!("printed {:?} does not re-parse: {}", text, e.message()))?;
+        (got, flat_real(back.as_table().get_values()))
+    };
+    if got != want {
+        return Err(format!("get_values() after the sort = [{}], reference ordered tree (same comparator at every dotted level) = [{}]", got.join(", "), want.join(", ")));
+    }
+    if printed != want {
+        return Err(format!("printed and re-parsed order = [{}], reference = [{}]", printed.join(", "), want.join(", ")));
+    }
+    Ok(())
+}
+
+/// wide sequences: n distinct values, rotated by r, forwards or backwards
+fn wide_values(n: usize, r: usize, rev: bool) -> Vec<i64> {
+    let mut v: Vec<i64> = (0..n).map(|i| ((i + r) % n.max(1)) as i64).collect();
+    if rev {
+        v.reverse();
+    }
+    v
+}
+
+fn sort_wide_case(kind: usize, n: usize, r: usize, rev: bool, k: i64, op: usize) -> Result<(), String> {
+    let vals = wide_values(n, r, rev);
+    let show = |v: &[i64]| v.iter().map(|x| x.to_string()).collect::<Vec<_>>().join(",");
+    match kind {
+        0 => {
+            // Array
+            let mut a: Array = vals.iter().copied().collect();
+            let mut m = vals.clone();
+            match op {
+                0 => {
+                    a.sort_by(|p, q| (p.as_integer().unwrap_or(0) % k).cmp(&(q.as_integer().unwrap_or(0) % k)));
+                    m.sort_by(|p, q| (p % k).cmp(&(q % k)));
+                }
+                1 => {
+                    a.sort_by_key(|v| v.as_integer().unwrap_or(0) % k);
+                    m.sort_by_key(|v| v % k);
+                }
+                _ => {
+                    a.sort_by_key(|v| std::cmp::Reverse(v.as_integer().unwrap_or(0) % k));
+                    m.sort_by_key(|v| std::cmp::Reverse(v % k));
+                }
+            }
+            let got: Vec<i64> = a.iter().map(|v| v.as_integer().unwrap_or(-1)).collect();
+            if got != m {
+                return Err(format!("Array of {} elements: after the sort [{}], reference Vec (stable) [{}]", n, show(&got), show(&m)));
+            }
+        }
+        _ => {
+            // Table (1) / InlineTable (2): keys k00.., comparator on the values only
+            let mut m: Vec<(String, i64)> = vals.iter().enumerate().map(|(i, v)| (format!("k{:02}", i), *v)).collect();
+            let got: Vec<String> = if kind == 1 {
+                let mut t = Table::new();
+                for (key, v) in &m {
+                    t.insert(key, toml_edit::value(*v));
+                }
+                match op {
+                    0 => t.sort_values_by(|_, v1, _, v2| (v1.as_integer().unwrap_or(0) % k).cmp(&(v2.as_integer().unwrap_or(0) % k))),
+                    1 => t.sort_values_by(|_, v1, _, v2| (v2.as_integer().unwrap_or(0) % k).cmp(&(v1.as_integer().unwrap_or(0) % k))),
+                    _ => {
+                        let tl: &mut dyn TableLike = &mut t;
+                        tl.sort_values();
+                    }
+                }
+                t.iter().map(|(key, _)| key.to_string()).collect()
+            } else {
+                let mut t = InlineTable::new();
+                for (key, v) in &m {
+                    t.insert(key, Value::from(*v));
+                }
+                match op {
+                    0 => t.sort_values_by(|_, v1, _, v2| (v1.as_integer().unwrap_or(0) % k).cmp(&(v2.as_integer().unwrap_or(0) % k))),
+                    1 => t.sort_values_by(|_, v1, _, v2| (v2.as_integer().unwrap_or(0) % k).cmp(&(v1.as_integer().unwrap_or(0) % k))),
+                    _ => {
+                        let tl: &mut dyn TableLike = &mut t;
+                        tl.sort_values();
+                    }
+                }
+                t.iter().map(|(key, _)| key.to_string()).collect()
+            };
+            match op {
+                0 => m.sort_by(|a, b| (a.1 % k).cmp(&(b.1 % k))),
+                1 => m.sort_by(|a, b| (b.1 % k).cmp(&(a.1 % k))),
+                _ => m.sort_by(|a, b| a.0.cmp(&b.0)),
+            }
+            let want: Vec<String> = m.iter().map(|(key, _)| key.clone()).collect();
+            if got != want {
+                return Err(format!("{} of {} entries: key order after the sort [{}], reference Vec (stable) [{}]", if kind == 1 { "Table" } else { "InlineTable" }, n, got.join(","), want.join(",")));
+            }
+        }
+    }
+    Ok(())
+}
+
+fn sort_family(rep: &mut Report, tier: Tier) {
+    // (a) dotted children
+    let t0 = std::time::Instant::now();
+    let perms = permutations(SORT_PATHS.len());
+    let cases: Vec<(usize, bool, usize)> = (0..perms.len()).flat_map(|p| [false, true].into_iter().flat_map(move |inl| (0..4).map(move |w| (p, inl, w)))).collect();
+    let acc = cases
+        .par_iter()
+        .fold(Acc::default, |mut acc, (p, inl, w)| {
+            acc.evals += 1;
+            let label = format!("{} built from `{}`, then {}", if *inl { "inline table" } else { "root table" }, perms[*p].iter().map(|i| SORT_PATHS[*i].join(".")).collect::<Vec<_>>().join(" ; "), SORT_CMP_NAMES[*w]);
+            acc.nontrivial(label.as_bytes());
+            match guarded(|| sort_dotted_case(&perms[*p], *inl, *w)) {
+                Ok(Ok(())) => {
+                    acc.bump("sort-agrees");
+                    acc.sample(|| label.clone());
+                }
+                Ok(Err(e)) => acc.viol("U-sort", label, None, e),
+                Err(p) => acc.viol("U-sort", label, None, format!("panic: {}", p)),
+            }
+            acc
+        })
+        .reduce(Acc::default, Acc::merge);
+    let n = cases.len() as u64;
+    rep.transitions = Some(rep.transitions.unwrap_or(0) + n);
+    rep.traces_validated += n;
+    rep.absorb("U-sort(dotted)", &format!("every order of the 7 paths a, c, b.x, b.y, b.z, b.m.p, b.m.q ({} permutations) x root table / inline table x 4 comparators", perms.len()), n, true, t0, acc);
+
+    // (b) wide containers
+    let t0 = std::time::Instant::now();
+    let nmax = tier.pick(40usize, 72usize);
+    let mut cases: Vec<(usize, usize, usize, bool, i64, usize)> = Vec::new();
+    for kind in 0..3 {
+        for n in 0..=nmax {
+            for r in 0..n.max(1) {
+                for rev in [false, true] {
+                    for k in [2i64, 3, 5] {
+                        for op in 0..3 {
+                            cases.push((kind, n, r, rev, k, op));
+                        }
+                    }
+                }
+            }
+        }
+    }
+    let acc = cases
+        .par_iter()
+        .fold(Acc::default, |mut acc, c| {
+            acc.evals += 1;
+            let label = format!("{} with {} entries (values 0..n rotated by {}{}), op {} with key = value mod {}", ["Array", "Table", "InlineTable"][c.0], c.1, c.2, if c.3 { ", reversed" } else { "" }, [["sort_by", "sort_by_key", "sort_by_key(Reverse)"], ["sort_values_by", "sort_values_by(reversed)", "dyn TableLike::sort_values"], ["sort_values_by", "sort_values_by(reversed)", "dyn TableLike::sort_values"]][c.0][c.5], c.4);
+            acc.nontrivial(label.as_bytes());
+            match guarded(|| sort_wide_case(c.0, c.1, c.2, c.3, c.4, c.5)) {
+                Ok(Ok(())) => {
+                    acc.bump("sort-agrees");
+                    acc.sample(|| label.clone());
+                }
+                Ok(Err(e)) => acc.viol("U-sort", label, None, e),
+                Err(p) => acc.viol("U-sort", label, None, format!("panic: {}", p)),
+            }
+            acc
+        })
+        .reduce(Acc::default, Acc::merge);
+    let n = cases.len() as u64;
+    rep.transitions = Some(rep.transitions.unwrap_or(0) + n);
+    rep.traces_validated += n;
+    rep.absorb("U-sort(wide)", &format!("Array / Table / InlineTable with 0..={} entries, every rotation forwards and backwards, tie-producing keys (value mod 2, 3, 5), 3 sort calls each", nmax), n, true, t0, acc);
+}
+
 // ================================================================================================
 
 fn run_sys<S: Sys>(rep: &mut Report, sys: &S, depth_cap: usize, state_cap: usize) {
@@ -1396,7 +1700,7 @@ pub fn c16(tier: Tier) -> i32 {
     run_sys(&mut rep, &AotSys { max_len: tier.pick(3, 4) }, depth, cap);
     run_sys(&mut rep, &TomlMapSys { preserve_order: preserve_order_build() }, depth, cap);
     run_sys(&mut rep, &TableSys { values: vec![MV::Int(1), MV::Aot, MV::Tab] }, depth, cap);
-    let _ = tier;
+    sort_family(&mut rep, tier);
     // toml::Map in its insertion-ordered configuration: every history of <= 4 calls over 4 keys, run by the
     // cfg engine's binary built with `preserve_order`
     {
